@@ -56,6 +56,15 @@ CLAIMED["C03"] = ("5/C03",
    "Not covered: distance from the exact rational curve, value equality of estimate and execution, round-trip inequality, 18/36-digit regimes (numeric). Assumes positive operands in the direction inference. Trusted: C12's rounding classes, go/ssa.",
    "direction-lattice abstract interpretation + rounding-class dataflow + SSA guard/order/cache-context rules")
 
+CLAIMED["C01"] = ("5/C01",
+   "Rounding-class dataflow and origin-term rules over concentrated-liquidity decide the structural solvency conditions: deposits and amounts charged use only round-up operations, withdrawals, pay-outs, reward growth and claims only truncations (CalcAmount0/1Delta by branch, CalcActualAmounts flag = sign of the liquidity delta, TruncateInt/DecRoundUp/Dec conversions, fee ceiling); every transfer out of a pool, spread-reward or incentive account is exactly the amount just computed, to the position owner, from the matching account; and the set of functions that send from pool-owned accounts is closed.",
+   "Not covered: that accumulated dust over a history covers every claim, lock-bound positions, negative interval accumulator values (history/magnitude clauses). Trusted: C12 rounding classes, bank SendCoins semantics.",
+   "rounding-class dataflow (with constant-argument-sensitive helper summaries) + SSA origin-term / guard / who-may-send rules")
+CLAIMED["C07"] = ("5/C07",
+   "Static rules decide: a position update applies the same delta to the lower tick (+net), upper tick (-net), position record and - iff lower <= current < upper - the pool's active liquidity, after validation and before persisting; crossing adds the direction-signed net liquidity of exactly the parsed tick and moves the tick to next-1/next; iterator start bounds; ticks are removed only when reported empty, positions deleted only on full withdrawal, pools uninitialised only without positions; writers of ticks/positions have only the listed callers.",
+   "Not covered: the bookkeeping invariant itself over histories; price/tick numeric agreement. Trusted: KV store, go/ssa.",
+   "SSA origin-term / predicate-shape / order / who-may-call rules")
+
 NOT_YET = "check not built yet in this revision (static rule set under construction; see DESIGN.md section 5)"
 
 def main():
